@@ -161,6 +161,23 @@ CHECKS = {
         "error); permitted accesses are *.ckl / Python import / tz files.",
         "DESIGN.md section 5 C09",
     ),
+    "C10": (
+        "model-based testing of session histories: exhaustive enumeration of "
+        "short histories + Hypothesis-generated long histories on two "
+        "interleaved interpreters against a Python session model",
+        "All histories up to length 3 (quick) / 5 (thorough, 37 449 "
+        "histories) over an 8-command core alphabet and random histories up "
+        "to length 30 over 16 command kinds (define, assign, read, function "
+        "mutating a global, partial failure, syntax error, aborted loop, "
+        "require of good / dependent / missing / failing / syntactically "
+        "broken / circular user modules) are issued to fresh interpreters "
+        "and to a session model; value, error value, stdout, repetition of "
+        "every failing command, final read-back of all variables, module "
+        "cache and load stack must agree.",
+        "Trusted: the session model (about 100 lines); user modules on a "
+        "scratch HOME; failed module loads may re-run top-level code.",
+        "DESIGN.md section 5 C10",
+    ),
     "C12": (
         "differential testing across fresh processes with different "
         "PYTHONHASHSEED values + in-process metamorphic testing (permuted "
